@@ -28,6 +28,13 @@ use vh::*;
 // ---------------------------------------------------------------------------------------------
 // reference
 // ---------------------------------------------------------------------------------------------
+/// Oracle self-test switch (`--perturb <name>`, never set by the driver): deliberately wrong
+/// expectations used to confirm that the monitor fires. Run with `--verif-dir <scratch>`.
+static PERTURB: std::sync::OnceLock<String> = std::sync::OnceLock::new();
+fn perturb(name: &str) -> bool {
+    PERTURB.get().map(|p| p == name).unwrap_or(false)
+}
+
 fn ref_matches(ty: &str, pat: &str) -> bool {
     match pat.char_indices().last() {
         Some((i, '*')) => ty.len() >= i && ty.as_bytes()[..i] == pat.as_bytes()[..i],
@@ -47,7 +54,12 @@ fn pat_kind(p: &str) -> &'static str {
 
 /// (expected pipeline, index of first matching route or None, matching pattern)
 fn ref_target(pipelines: &[String], routes: &[(Vec<String>, String)], ty: &str) -> (Option<String>, Option<usize>, Option<String>) {
-    for (i, (pats, to)) in routes.iter().enumerate() {
+    let mut order: Vec<usize> = (0..routes.len()).collect();
+    if perturb("last-match") {
+        order.reverse();
+    }
+    for i in order {
+        let (pats, to) = &routes[i];
         for p in pats {
             if ref_matches(ty, p) {
                 return (Some(to.clone()), Some(i), Some(p.clone()));
@@ -524,7 +536,15 @@ fn run_case(rt: &tokio::runtime::Runtime, workers: &[MockWorker], case_tag: &str
     let mut per_key: BTreeMap<Key, Vec<&Obs>> = BTreeMap::new();
     for o in &obs {
         if logical_of(&o.replica) == "ph" {
-            per_key.entry(by_uid[&o.uid].k.key.clone()).or_default().push(o);
+            let mut key = by_uid[&o.uid].k.key.clone();
+            if perturb("merge-int-string") {
+                if let Key::Str(s) = &key {
+                    if let Ok(i) = s.parse::<i64>() {
+                        key = Key::Int(i);
+                    }
+                }
+            }
+            per_key.entry(key).or_default().push(o);
         }
     }
     let mut both_paths = 0;
@@ -584,7 +604,7 @@ fn run_case(rt: &tokio::runtime::Runtime, workers: &[MockWorker], case_tag: &str
             out.add("rr_windows", 1);
             let mx = cnt.values().max().copied().unwrap_or(0);
             let mn = cnt.values().min().copied().unwrap_or(0);
-            if mx - mn > 1 {
+            if mx - mn > if perturb("rr-zero") { 0 } else { 1 } {
                 let paths: BTreeSet<&str> = rr[i..=j].iter().map(|o| o.path).collect();
                 let p = if paths.len() == 2 { "mixed" } else if paths.contains("single") { "single-only" } else { "batch-only" };
                 out.violation(
@@ -607,6 +627,9 @@ fn main() {
     let args = Args::parse();
     install_quiet_panic_hook();
     watchdog("C34", args.pick(600, 3600));
+    if let Some(p) = args.opt("--perturb") {
+        let _ = PERTURB.set(p);
+    }
     let mut rep = Report::new("C34", "exploration", &args);
     rep.rule = "lane A: exhaustive over all 2-route tables (one pattern each; patterns = words of length <=2 over {a,b,A}, exact or with trailing *; targets (p1,p2),(p2,p1),(p1,p1); pipelines [p0,p1,p2]) and all 1-route/2-pattern tables x all 40 event types of length <=3; lane A2: random tables (2-5 routes, 1-3 patterns, 2-4 pipelines, permuted pipeline order) through resolve_inject_target; lane B/C: groups with a key-hash pipeline (1-5 replicas) and a round-robin pipeline (1-5 replicas) deployed via plan/commit, every event injected through the single path (JSON body text) and the batch path (.evt text) in random interleaved segments. Non-trivial: a table in which some event type is matched by routes with >=2 different targets; an inject case with >=2 hash replicas and >=1 key value observed on both paths.".into();
     rep.assume("a key value is its typed scalar: int by value, float by the f64 its text denotes (<=6 significant digits so every parser agrees), string by content, or missing; an int and a float of equal magnitude are different key values (nothing demanded)");
